@@ -5,7 +5,9 @@ import json
 from sim import core, gen_a, wiremap, world_a
 
 PROPS = {'C06': {'C06'}, 'C07': {'C07'}, 'C08': {'C08'}, 'C09': {'C09'},
-         'C20': {'C20'}}
+         'C20': {'C20'},
+         # World B's checks borrow the capacity population (sim.check_b)
+         'C12': {'C12'}, 'C16': {'C16'}}
 
 # (population, runs) per tier.  Counts are fixed (not time-boxed) so that a
 # VERIF_SEED names the same set of runs on every machine.
@@ -397,8 +399,20 @@ _POPS = (' Populations: frag (fragmentation-only link), corrupt (corruption '
          'novel-line policy), sweep / truncsweep / bytesweep / fieldsweep '
          '(enumerated single faults: every cut point, every payload '
          'truncation, every byte overwritten with a value set, every '
-         'length/flag/tag/id field rewritten to a value set). Each run '
-         'executes in a freshly forked child of a library-pristine process.')
+         'length/flag/tag/id field rewritten to a value set), capacity '
+         '(2-3 connections x 300-2300 frames with run-wide distinct values, '
+         'executed sequentially; whenever the state watch sees a library '
+         'container within a few entries of a capacity of interest the round '
+         'is explored in forked children: every thread parked before every '
+         'container-touching line while the others run their window, plus '
+         'the rendezvous variant; children leaving a container state that no '
+         'sequential order produces continue to the end of the run), soak '
+         '(C08: one history of 6000-80000 distinct harness-built frames, '
+         'retained memory judged after dropping every result), and a few '
+         'strict prefixes of body frames of 2^31 bytes and more (the peer '
+         'closes a few bytes into a huge frame). A fraction of every plan '
+         'runs again under python -O. Each run executes in a freshly forked '
+         'child of a library-pristine process.')
 _NT = (' A run is non-trivial if at least one link fault (fragment, coalesce, '
        'stall, close, trailing, raw bytes or a corruption kind) actually '
        'fired while a frame was in flight AND at least one oracle of this '
